@@ -6,9 +6,9 @@ SNAP=$(mktemp /tmp/jsverif-snap.XXXXXX); cp "${JSVERIF_BIN:-/verif/bin/jsverif}"
 one() {
   d="$1"; id=$(basename "$d")
   wt=$(mktemp -d /tmp/sm-wt.XXXXXX); rmdir "$wt"; vd=$(mktemp -d /tmp/sm-vd.XXXXXX)
-  git -C /repo worktree add -q --detach "$wt" HEAD || exit 2
+  git -C /repo worktree add -q --detach "$wt" "${SEED_BASE:-HEAD}" || exit 2
   git -C "$wt" apply "$(realpath "$d/patch.diff")" || { echo "$id APPLY-FAILED"; git -C /repo worktree remove --force "$wt"; exit 0; }
-  ln -s /verif/known_findings.json "$vd/known_findings.json"; ln -s /verif/tools "$vd/tools"
+  ln -s "${VERIF_KF:-/verif/known_findings.json}" "$vd/known_findings.json"; ln -s "${VERIF_TOOLS:-/verif/tools}" "$vd/tools"
   out="$d/.matrix.txt"; : > "$out"
   for p in C01 C02 C03 C04 C05 C06 C07 C08 C09 C10 C11 C12 C13 C14 C15 C16 C17 C18 C19; do
     VERIF_REPO="$wt" VERIF_DIR="$vd" timeout 900 ${JSVERIF_BIN:-/verif/bin/jsverif} check $p ${TIER:-quick} 2>&1 | grep -a "^VIOLATION" | sed -E "s/^VIOLATION property=([A-Z0-9]+) replay=[^ ]+ rule=([^ ]+) .*/\1 \2/" | sort -u >> "$out"
